@@ -46,6 +46,7 @@ Proof. intros ->; auto. Qed.
 
 Section Glue.
 Variable d : nat.
+Variable thr2 : R.
 Variables (omega : list R) (basis nopers : list (Mat (T:=R))).
 Variables (a b k l o : nat).
 Notation Seg := (SegData (T:=R)).
@@ -122,9 +123,9 @@ Definition real_beta (s : Seg) : Prop :=
 (* outer integral over [t0, t0 + total]: the recursion so_spec of the model *)
 Lemma outer_glue : forall segs t0 c0,
   (forall s, In s segs -> 0 <= seg_dt s /\ real_beta s) ->
-  Forall2 (seg_td d omega basis nopers a b k l o) segs (firstn (length segs) (cumsum_from RO t0 (map seg_dt segs))) ->
+  Forall2 (seg_td d thr2 omega basis nopers a b k l o) segs (firstn (length segs) (cumsum_from RO t0 (map seg_dt segs))) ->
   is_CInt (fun t => cmul' (cmul' (cexp' (- w * t)) (Bpw a k segs t0 t)) (Gpw segs t0 c0 t)) t0 (t0 + total segs)
-          (so_spec d na nk no omega a b k l o false segs c0).
+          (so_spec d thr2 na nk no omega a b k l o false segs c0).
 Proof.
   induction segs as [|s r IH]; intros t0 c0 Hok HF.
   - cbn [total so_spec]. replace (t0 + 0) with t0 by ring. apply is_CInt_point.
@@ -154,7 +155,7 @@ Proof.
         - unfold e0. rewrite cexp_conj_mul. ring.
         - ring. }
       apply (is_CInt_val _ _ _ (cadd' (cmul' (cmul' (cconj' e0) c0) (cconj' (gak (seg_dt s))))
-                                     (a5get RO (seg_same d na nk no omega s) a b k l o))).
+                                     (a5get RO (seg_same d thr2 na nk no omega s) a b k l o))).
       { rewrite cconj_mul. ring. }
       apply (is_CInt_shift (fun u => cadd' (cmul' (cmul' (cconj' e0) c0) (cconj' (cmul' (cexp' (w * u)) (bak u))))
                                        (cmul' (cmul' (cexp' (- w * u)) (bak u)) (gbl u)))).
@@ -173,7 +174,7 @@ End Glue.
 (* ------------------------------------------------------------------ the model's pulse *)
 Section Pulse.
 Variable d : nat.
-Variables (thr : R) (omega : list R) (basis nopers : list (Mat (T:=R))).
+Variables (thr thr2 : R) (omega : list R) (basis nopers : list (Mat (T:=R))).
 Notation Seg := (SegData (T:=R)).
 Notation na := (length nopers).
 Notation nk := (length basis).
@@ -234,17 +235,17 @@ Proof. induction segs; simpl; auto. rewrite IHsegs. reflexivity. Qed.
    (piecewise) time-domain control matrix, for every pulse with Hermitian noise operators / basis elements and
    non-negative durations, at every frequency where no first-order entry is on its Taylor branch with non-zero argument. *)
 Theorem F2_assembly evs Vs Qs ncoeffs dts a b k l o :
-  0 <= thr ->
+  0 <= thr2 <= thr ->
   (forall N, In N nopers -> fherm d (toF N)) -> (forall Ck, In Ck basis -> fherm d (toF Ck)) ->
   length evs = length dts -> length Vs = length dts -> (length dts <= length Qs)%nat -> length ncoeffs = na ->
   (forall dt, In dt dts -> 0 <= dt) ->
   (a < na)%nat -> (b < na)%nat -> (k < nk)%nat -> (l < nk)%nat -> (o < no)%nat ->
-  no_taylor d thr omega evs dts o ->
+  no_taylor d omega thr evs dts o ->
   let ts := times RO dts in
   let segs := fresh_segs d thr omega basis nopers evs Vs Qs ts dts (transpose_coeffs RO (length dts) ncoeffs) in
   let w := vg RO omega o in
   let tau := sumlist RO dts in          (* pulse duration *)
-  let F2 := second_order_ff RO d thr evs Vs Qs omega basis nopers ncoeffs dts ts (None, None) in
+  let F2 := second_order_ff RO d thr thr2 evs Vs Qs omega basis nopers ncoeffs dts ts (None, None) in
   exists Gam : R -> Cx,
     (forall t, 0 <= t <= tau ->
        is_CInt (fun t' => cmul' (cexp' (w * t')) (Bpw d b l segs 0 t')) 0 t (Gam t)) /\
@@ -252,7 +253,7 @@ Theorem F2_assembly evs Vs Qs ncoeffs dts a b k l o :
 Proof.
   intros Hthr HN HC H1 H2 H3 H5 Hdt Ha Hb Hk Hl Ho Hmask ts segs w tau F2.
   assert (H4 : (length dts <= length ts)%nat) by (unfold ts, times; rewrite cumsum_from_length; lia).
-  destruct (F2_assembly_partial d thr omega basis nopers evs Vs Qs ncoeffs dts ts a b k l o) as [Hval Htd]; auto.
+  destruct (F2_assembly_partial d thr thr2 omega basis nopers evs Vs Qs ncoeffs dts ts a b k l o) as [Hval Htd]; auto.
   fold segs in Hval, Htd.
   assert (Hnc : forall nc, In nc (transpose_coeffs RO (length dts) ncoeffs) -> length nc = na)
     by (intros nc Hin; rewrite (transpose_coeffs_rows _ _ _ Hin); exact H5).
